@@ -56,8 +56,8 @@ Flat(ss)      == IF ss = <<>> THEN <<>> ELSE Head(ss) \o Flat(Tail(ss))
 ElsOf(S, n)   == LET L == LinesOf(S, n) IN Flat([i \in 1..Len(L) |-> L[i].els])
 IsPrefix(a, b) == Len(a) <= Len(b) /\ SubSeq(b, 1, Len(a)) = a
 
-\* names the client itself declared connection-specific ("Connection: close, x-foo"): the fixed list of the
-\* property does not contain them, a careful proxy may still drop them -- left unconstrained
+\* names the client itself declared connection-specific ("Connection: close, x-foo"): hop-by-hop for this
+\* connection just like the fixed list (RFC 7230 section 6.1)
 Nominated(H) == UNION {Range(h.toks) : h \in {x \in Range(H) : x.ln = "connection"}}
 
 IsOther(n, H) == n \notin (Sensitive \cup HopByHop \cup Forwarded \cup Managed \cup OllaOwned \cup Nominated(H))
@@ -74,13 +74,16 @@ NoSensitive(H, U) == \A n \in NamesOf(U) \cap Sensitive : n \notin NamesOf(H)
 \* a: none of the client's hop-by-hop headers
 NoHopByHop(H, U)  == \A i \in 1..Len(U) :
                         (U[i].ln \in HopByHop /\ U[i].ln \in NamesOf(H)) => OwnFraming(U[i])
+\* a: ... nor a header the client's Connection line nominates
+NoNominated(H, U) == \A n \in NamesOf(U) \cap NamesOf(H) \cap Nominated(H) :
+                        n \in HopByHop \cup Forwarded \cup Managed \cup OllaOwned
 \* b: every other client header arrives with the same ordered list of values
 OthersUnchanged(H, U) == \A n \in NamesOf(H) : IsOther(n, H) => ValsOf(U, n) = ValsOf(H, n)
 \* c: what the client put into Via / X-Forwarded-* / X-Real-IP is still there, in order, and whatever olla adds
 \*    comes after it
 ForwardedAppended(H, U) == \A n \in NamesOf(H) \cap Forwarded : IsPrefix(ElsOf(H, n), ElsOf(U, n))
 
-Allowed(H, U) == NoSensitive(H, U) /\ NoHopByHop(H, U) /\ OthersUnchanged(H, U) /\ ForwardedAppended(H, U)
+Allowed(H, U) == NoSensitive(H, U) /\ NoHopByHop(H, U) /\ NoNominated(H, U) /\ OthersUnchanged(H, U) /\ ForwardedAppended(H, U)
 
 -----------------------------------------------------------------------------
 (* Bounded model of the mechanism *)
@@ -92,10 +95,8 @@ MCBlocks == UNION {[1..k -> MCLines] : k \in 0..MaxLines}
 
 OllaEl == "olla"
 
-\* the part of H that is relayed as it is: neither credentials nor hop-by-hop; a nominated header may or may
-\* not survive (keep says which)
-Relayed(H, keep) == SelectSeq(H, LAMBDA h : /\ h.ln \notin Sensitive \cup HopByHop \cup Forwarded
-                                            /\ (h.ln \in Nominated(H) => keep))
+\* the part of H that is relayed as it is: neither credentials nor hop-by-hop (listed or nominated)
+Relayed(H) == SelectSeq(H, LAMBDA h : h.ln \notin Sensitive \cup HopByHop \cup Forwarded \cup Nominated(H))
 \* the Via / X-Forwarded-* / X-Real-IP lines of the upstream block: the client's elements, then olla's (add[n])
 FwdNames == {"via", "x-forwarded-for", "x-forwarded-proto", "x-forwarded-host", "x-real-ip"}
 FwdOrder == <<"via", "x-forwarded-for", "x-forwarded-host", "x-forwarded-proto", "x-real-ip">>
@@ -112,7 +113,7 @@ Adds(H) == {f \in [FwdNames -> {<<>>, <<OllaEl>>}] :
                     f[n] = IF ClientEls(H, n) = <<>> THEN <<OllaEl>> ELSE <<>>}
 OwnLines == <<[ln |-> "transfer-encoding", v |-> "chunked", els |-> <<"chunked">>, toks |-> <<>>],
               [ln |-> "x-proxied-by", v |-> "olla", els |-> <<"olla">>, toks |-> <<>>]>>
-Built(H) == {OwnLines \o Relayed(H, keep) \o FwdBlock(H, f) : keep \in BOOLEAN, f \in Adds(H)}
+Built(H) == {OwnLines \o Relayed(H) \o FwdBlock(H, f) : f \in Adds(H)}
 
 Init == sent = <<>> /\ ups = <<>> /\ phase = "idle" /\ act = "Init"
 
